@@ -12,6 +12,8 @@ export GOFLAGS=-mod=mod GOPROXY=off GOSUMDB=off
 export GOCACHE=$(go env GOCACHE) GOMODCACHE=$(go env GOMODCACHE) GOPATH=$(go env GOPATH)
 cd $wt || exit 2
 git checkout -q -- . ; git clean -fdq -e out
+# bring the scratch worktree to /repo's current HEAD (fixes committed since the seed was made)
+git checkout -q --detach $(git -C /repo rev-parse HEAD) 2>/dev/null
 pkg=$(python3 -c "import json;print(json.load(open('$out/meta.json')).get('demo_package_dir','.'))")
 [ -z "$pkg" ] && pkg=.
 pkg=${pkg#./}
@@ -24,7 +26,8 @@ demo() {
   [ $rc -eq 0 ] && echo pass || echo fail
 }
 dc=$(demo clean)
-git apply $out/patch.diff || { echo "SEED $id-$n patch does not apply"; exit 2; }
+git apply $out/patch.diff 2>/dev/null || git apply --3way $out/patch.diff 2>/dev/null || { echo "SEED $id-$n patch does not apply to the current HEAD"; git checkout -q -- .; exit 2; }
+git reset -q 2>/dev/null
 suite=$(dastard-tests $wt 2>&1 | tail -1); [ "$suite" = "PASS-SET OK" ] && suite=ok || suite=broken
 dp=$(demo patched)
 line="SEED $id-$n demo_clean=$dc suite=$suite demo_patched=$dp"
